@@ -36,7 +36,7 @@ def fresh_axis(d: Dim) -> Layout | None:
     if d.as_int() == 1:
         return ()
     s = single_symbol(d)
-    if s is not None and not s.startswith(("mod(", "floordiv(", "rank#", "loop_index", "rfftlen(", "pow(")):
+    if s is not None and not s.startswith(("mod(", "floordiv(", "rank#", "loop_index", "rfftlen(", "pow(", "nn:")):
         return ((s, d),)
     return None
 
@@ -113,7 +113,40 @@ def merge(lays: list[Layout | None]) -> tuple[Layout | None, str | None]:
         return None, None
     if all(sorted(base(k), key=lambda a: (a[0], repr(a[1]))) == sorted(b0, key=lambda a: (a[0], repr(a[1]))) for k in known):
         return None, "the same elements are listed in different orders: " + " vs ".join(fmt(k) for k in known)
-    return None, None
+    return _pair_positionally(known), None
+
+
+def _pair_positionally(known: list[Layout]) -> Layout | None:
+    """element-wise combination of operands whose axis is factorised into *different* atoms.
+    Copies made by ``repeat`` (``rep:`` atoms) carry no identity of their own: when all operands
+    factorise the axis into the same sequence of sizes, position by position a ``rep:`` atom yields to
+    the other operand's atom (``[rep:K, H] * [dK, rep:H] -> [dK, H]``).  When the size sequences
+    differ although every atom is one plain size symbol (``[rep:K, H] * [rep:H, dK]``), entry j pairs
+    (j div H, j mod H) of one operand with (j div K, j mod K) of the other: a decided misalignment,
+    recorded as a ``<misaligned ..>`` placeholder for the output contracts."""
+    seqs = []
+    for k in known:
+        syms = [single_symbol(d) for _, d in k]
+        if any(x is None for x in syms):
+            return None
+        seqs.append(syms)
+    if all(sq == seqs[0] for sq in seqs):
+        out: list[Atom] = []
+        for pos in range(len(seqs[0])):
+            atoms = [k[pos] for k in known]
+            real = [a for a in atoms if not a[0].startswith("rep:")]
+            labels = {a[0] for a in real}
+            if not real:
+                out.append(atoms[0])
+            elif len(labels) == 1:
+                out.append(real[0])
+            else:
+                return None
+        return tuple(out)
+    if all(sorted(sq) == sorted(seqs[0]) for sq in seqs):
+        total = size_of(known[0])
+        return ((f"{MISALIGNED} pairing of " + " with ".join(fmt(k) for k in known) + ">", total),)
+    return None
 
 
 PARTS: dict[str, list[Atom]] = {}  # atom label -> the ordered sub-atoms a view split it into
